@@ -410,4 +410,103 @@ theorem all_exited_mem {n : Nat} {ws : List WPc} (hlen : ws.length = n)
   rw [List.getElem?_eq_getElem hi] at this
   exact Option.some.inj this
 
+/-! ## liveness side: `drop` is never stuck and terminates -/
+
+/-- bound on the main pc inside the join loop (kept apart from `InvDrain`) -/
+def JoinLe (n : Nat) (s : St) : Prop := ∀ w, s.main = .joining w → w ≤ n
+
+theorem joinLe_init (n : Nat) : JoinLe n (init n) := by intro w h; simp [init] at h
+
+theorem joinLe_step {n : Nat} {s s' : St} {e : Event} (hs : Step n s e s') (I : JoinLe n s) : JoinLe n s' := by
+  cases hs <;> intro v hv <;> first
+    | exact I v hv
+    | (simp at hv; try omega)
+    | (simp_all)
+
+theorem joinLe_reachable {n : Nat} {s : St} (h : Reachable n s) : JoinLe n s := by
+  induction h with
+  | init => exact joinLe_init n
+  | step _ hs ih => exact joinLe_step hs ih
+
+theorem countP_lt_of_get {ws : List WPc} {p : WPc → Bool} {w : Nat} {x : WPc} (h : ws[w]? = some x) (hp : p x = false) :
+    List.countP p ws < ws.length := by
+  have hle := List.countP_le_length (p := p) (l := ws)
+  rcases Nat.lt_or_ge (List.countP p ws) ws.length with h1 | h1
+  · exact h1
+  · have : List.countP p ws = ws.length := by omega
+    rw [List.countP_eq_length] at this
+    have := this x (List.mem_of_getElem? h)
+    rw [hp] at this; cases this
+
+/-- a worker that holds the lock and is not past `Terminate` can always move once all
+    `Terminate`s have been sent -/
+theorem locked_can_recv {n : Nat} {s : St} (I : Inv n s) (hts : termsSent n s.main = n) {u : Nat}
+    (hu : s.ws[u]? = some .locked) : ∃ e s', Step n s e s' := by
+  have hlt := countP_lt_of_get (p := WPc.pastTerm) hu rfl
+  have ht := I.drain.tcnt
+  rw [hts] at ht; rw [I.drain.len] at hlt
+  have hpos : 0 < s.queue.count .term := by omega
+  cases hq : s.queue with
+  | nil => rw [hq] at hpos; simp at hpos
+  | cons m q =>
+    cases m with
+    | job j => exact ⟨_, _, .recvJob s u j q hu hq⟩
+    | term => exact ⟨_, _, .recvTerm s u q hu hq⟩
+
+/-- if some worker has not exited and all `Terminate`s are out, some worker step is enabled -/
+theorem worker_can_move {n : Nat} {s : St} (I : Inv n s) (hts : termsSent n s.main = n) {v : Nat} {pc : WPc}
+    (hv : s.ws[v]? = some pc) (hne : pc ≠ .exited) : ∃ e s', Step n s e s' := by
+  cases pc with
+  | exited => exact absurd rfl hne
+  | got m => exact ⟨_, _, .unlock s v m hv⟩
+  | ready m =>
+    cases m with
+    | job j => exact ⟨_, _, .start s v j hv⟩
+    | term => exact ⟨_, _, .exit s v hv⟩
+  | running j => exact ⟨_, _, .finish s v j hv⟩
+  | locked => exact locked_can_recv I hts hv
+  | idle =>
+    cases hh : s.holder with
+    | none => exact ⟨_, _, .lock s v hv hh⟩
+    | some u =>
+      obtain ⟨pc, h1, h2⟩ := I.lock.holdA u hh
+      cases pc <;> simp [WPc.holdsLock] at h2
+      · exact locked_can_recv I hts h1
+      · exact ⟨_, _, .unlock s u _ h1⟩
+
+/-- potential of a worker pc: every worker step lowers it, except that a receive raises it
+    by 5 while removing one message (worth 6) from the queue -/
+def WPc.rank : WPc → Nat
+  | .idle => 5
+  | .locked => 4
+  | .got _ => 9
+  | .ready _ => 8
+  | .running _ => 7
+  | .exited => 0
+
+def mainRank (n : Nat) : MPc → Nat
+  | .submitting => 0
+  | .terms k => 7 * (n - k) + n + 2
+  | .joining w => n - w + 1
+  | .done => 0
+
+/-- potential of a state once `drop` has begun -/
+def potential (n : Nat) (s : St) : Nat :=
+  mainRank n s.main + 6 * s.queue.length + (s.ws.map WPc.rank).sum
+
+theorem sum_rank_set : ∀ (l : List WPc) (i : Nat) (old new : WPc), l[i]? = some old →
+    ((l.set i new).map WPc.rank).sum + old.rank = (l.map WPc.rank).sum + new.rank
+  | [], i, _, _, h => by simp at h
+  | x :: xs, 0, old, new, h => by
+    simp at h; subst h
+    simp only [List.set_cons_zero, List.map_cons, List.sum_cons]; omega
+  | x :: xs, i + 1, old, new, h => by
+    simp at h
+    have := sum_rank_set xs i old new h
+    simp only [List.set_cons_succ, List.map_cons, List.sum_cons]; omega
+
+theorem main_stays_dropping {n : Nat} {s s' : St} {e : Event} (hs : Step n s e s') (hm : s.main ≠ .submitting) :
+    s'.main ≠ .submitting := by
+  cases hs <;> simp_all
+
 end Gold.Pool
